@@ -216,6 +216,28 @@ func (m *FSModel) CrashImage(mode LossMode, r *simcore.Rand, stats map[string]in
 	return img
 }
 
+// WholeWriteStates returns every content the file at path can have when each of its unsynced
+// mutations is either applied completely or not at all, in order (durable content first). A crash
+// image holding anything else for that file contains a torn or zero-filled write.
+func (m *FSModel) WholeWriteStates(path string) [][]byte {
+	f := m.Files[path]
+	if f == nil {
+		return nil
+	}
+	b := append([]byte{}, f.dur...)
+	out := [][]byte{append([]byte{}, b...)}
+	for i := range f.pend {
+		ev := &f.pend[i]
+		if ev.Kind == simos.EvWrite {
+			b = writeAt(b, ev.Off, ev.Data)
+		} else {
+			b = truncateTo(b, ev.Off)
+		}
+		out = append(out, append([]byte{}, b...))
+	}
+	return out
+}
+
 // WriteImage writes a crash image below newRoot (paths are re-rooted).
 func (m *FSModel) WriteImage(img map[string][]byte, newRoot string) error {
 	dirs := make([]string, 0, len(m.Dirs))
